@@ -346,9 +346,10 @@ def _index_identity(lst, item):
 
 
 class Result(object):
-    __slots__ = ("root", "quirks_mode", "trace", "modes")
+    __slots__ = ("root", "quirks_mode", "trace", "modes", "meta_log")
 
-    def __init__(self, root, quirks_mode, trace, modes):
+    def __init__(self, root, quirks_mode, trace, modes, meta_log=None):
+        self.meta_log = meta_log or []
         self.root = root
         self.quirks_mode = quirks_mode
         self.trace = trace
@@ -435,6 +436,7 @@ class _Parser(object):
         self.compat = frozenset(compat)
         self.scripting = bool(scripting)
         self.trace = set()
+        self.meta_log = []
         self.modes = set()
         self.document = Node("document")
         self.quirks = "no-quirks"
@@ -1404,6 +1406,9 @@ class _Parser(object):
             if name == "meta":
                 self.insert_html_element(name, token[2])
                 self.stack.pop()
+                # harness extension: the meta elements processed by the "in head" rules, in order
+                # (this is where the standard may change the encoding; used by the C06 model)
+                self.meta_log.append(dict(token[2]))
                 return None
             if name == "command":
                 self.trace.add("dev:command")
@@ -3051,7 +3056,7 @@ INSERTION_MODES = sorted(_Parser.MODES)
 def parse_document(text, scripting=False, compat=frozenset()):
     p = _Parser(text, scripting=scripting, compat=compat)
     p.run()
-    return Result(p.document, p.quirks, p.trace, p.modes)
+    return Result(p.document, p.quirks, p.trace, p.modes, p.meta_log)
 
 
 def parse_fragment(text, context="div", scripting=False, compat=frozenset()):
